@@ -128,6 +128,11 @@ pub enum Tail {
     DirtyOnes(usize),
     /// from_raw_parts over storage with random bits beyond len and `n` spare random words
     DirtyRandom(usize),
+    /// the complement written first, truncated (by resize or pops) below len across
+    /// word boundaries, then grown again to the contents with resize + set, push or
+    /// extend: the contents are the product of a shrink-then-grow history over
+    /// stale storage
+    Regrown,
 }
 
 impl Tail {
@@ -138,6 +143,7 @@ impl Tail {
             Tail::Truncated => "truncated".into(),
             Tail::DirtyOnes(n) => format!("dirtyones+{}w", n),
             Tail::DirtyRandom(n) => format!("dirtyrand+{}w", n),
+            Tail::Regrown => "regrown".into(),
         }
     }
     pub const ALL: &'static [Tail] = &[
@@ -148,6 +154,7 @@ impl Tail {
         Tail::DirtyOnes(2),
         Tail::DirtyRandom(1),
         Tail::DirtyRandom(3),
+        Tail::Regrown,
     ];
 }
 
@@ -178,6 +185,65 @@ pub fn bitvec_with_tail(rng: &mut SmallRng, bits: &[bool], tail: Tail) -> BitVec
                 b.set(i, x);
             }
             b.resize(len, false);
+            b
+        }
+        Tail::Regrown => {
+            let extra = rng.random_range(0..200usize);
+            let mut b = BitVec::new(0);
+            // the complement of the final contents (and ones beyond) goes in first
+            for i in 0..len + extra {
+                b.push(if i < len { !bits[i] } else { true });
+            }
+            let cut = if len == 0 { 0 } else { rng.random_range(0..=len) };
+            if rng.random_bool(0.5) {
+                b.resize(cut, false);
+            } else {
+                while b.len() > cut {
+                    b.pop();
+                }
+            }
+            // overwrite what is left, then grow again
+            for (i, &x) in bits[..cut].iter().enumerate() {
+                b.set(i, x);
+            }
+            match rng.random_range(0..4u32) {
+                0 => {
+                    for &x in &bits[cut..] {
+                        b.push(x);
+                    }
+                }
+                1 => b.extend(bits[cut..].iter().copied()),
+                2 => {
+                    let v = rng.random_bool(0.5);
+                    b.resize(len, v);
+                    for (i, &x) in bits.iter().enumerate().skip(cut) {
+                        if x != v {
+                            b.set(i, x);
+                        }
+                    }
+                }
+                _ => {
+                    // a mix, in pieces
+                    let mut at = cut;
+                    while at < len {
+                        let step = 1 + rng.random_range(0..130usize).min(len - at - 1);
+                        match rng.random_range(0..3u32) {
+                            0 => bits[at..at + step].iter().for_each(|&x| b.push(x)),
+                            1 => b.extend(bits[at..at + step].iter().copied()),
+                            _ => {
+                                let v = bits[at];
+                                b.resize(at + step, v);
+                                for i in at..at + step {
+                                    if bits[i] != v {
+                                        b.set(i, bits[i]);
+                                    }
+                                }
+                            }
+                        }
+                        at += step;
+                    }
+                }
+            }
             b
         }
         Tail::DirtyOnes(spare) | Tail::DirtyRandom(spare) => {
